@@ -772,8 +772,15 @@ func (w *world) drain() {
 	deadline := 0
 	start := w.now
 	idle := uint32(0) // consecutive rounds without any datagram: step over quiet stretches
-	// bound: 30 virtual minutes (retransmission timeouts are capped at 60 s, probes at 120 s)
-	for round := 0; round < 200000 && w.now-start < 1800000 && !w.aborted; round++ {
+	// progress-based bound: the per-segment timeout grows by up to 60 s per retransmission, so the time
+	// to drain depends on the history; a wedge is "no progress for 40 virtual minutes" (or 24 h in all)
+	lastProgress := w.now
+	progressKey := func() string {
+		da, db := kcp.VerifKCPState(w.a.k), kcp.VerifKCPState(w.b.k)
+		return fmt.Sprint(da.SndUna, db.SndUna, len(da.SndQueue), len(db.SndQueue), len(w.a.got), len(w.b.got), len(w.a.gotMsgs), len(w.b.gotMsgs))
+	}
+	key := progressKey()
+	for round := 0; round < 400000 && w.now-lastProgress < 2400000 && w.now-start < 86400000 && !w.aborted; round++ {
 		da, db := kcp.VerifKCPState(w.a.k), kcp.VerifKCPState(w.b.k)
 		doneA := len(da.SndQueue)+len(da.SndBuf) == 0
 		doneB := len(db.SndQueue)+len(db.SndBuf) == 0
@@ -783,20 +790,22 @@ func (w *world) drain() {
 			w.recvAll(w.b)
 			w.finalOracle()
 			w.o.CountN("drain-rounds", round)
-			w.o.CountN("drain-virtual-ms", int(w.now-start))
+			w.o.CountN("drain-virtual-s", int((w.now-start)/1000))
 			return
 		}
 		active := len(w.netAB)+len(w.netBA) > 0
-		// fair network: deliver everything in flight, in order
+		// fair network, in order; the reader keeps reading: it reads after every datagram
 		for len(w.netAB) > 0 && !w.aborted {
 			p := w.netAB[0]
 			w.netAB = w.netAB[1:]
 			w.input(w.b, p, true, false)
+			w.recvAll(w.b)
 		}
 		for len(w.netBA) > 0 && !w.aborted {
 			p := w.netBA[0]
 			w.netBA = w.netBA[1:]
 			w.input(w.a, p, true, false)
+			w.recvAll(w.a)
 		}
 		w.recvAll(w.a)
 		w.recvAll(w.b)
@@ -810,13 +819,16 @@ func (w *world) drain() {
 			idle = 0
 		} else {
 			idle++
-			if idle > 3 { // quiet: jump ahead, but never past the flush a session would do
-				step = min(step<<min(idle-3, 6), 2000)
+			if idle > 3 { // quiet: jump ahead
+				step = min(step<<min(idle-3, 8), 5000)
 			}
 		}
 		_ = g
 		w.now += step
 		deadline = round
+		if k := progressKey(); k != key {
+			key, lastProgress = k, w.now
+		}
 	}
 	if !w.aborted {
 		da, db := kcp.VerifKCPState(w.a.k), kcp.VerifKCPState(w.b.k)
@@ -824,7 +836,7 @@ func (w *world) drain() {
 		if !w.stream && w.cfg.bigMsg && (w.msgTooBig(w.a, &db) || w.msgTooBig(w.b, &da)) {
 			kind = "no-drain-msg-exceeds-rcvwnd" // DESIGN O1: raw core, message mode
 		}
-		w.viol(kind, fmt.Sprintf("after %d fair rounds: a backlog %d+%d, b backlog %d+%d, in flight %d/%d", deadline+1,
+		w.viol(kind, fmt.Sprintf("no progress for 40 virtual minutes; after %d fair rounds: a backlog %d+%d, b backlog %d+%d, in flight %d/%d", deadline+1,
 			len(da.SndQueue), len(da.SndBuf), len(db.SndQueue), len(db.SndBuf), len(w.netAB), len(w.netBA)))
 	}
 }
